@@ -431,3 +431,39 @@ def components(text, version=None):
 def rc(seq):
     comp = {"a": "t", "t": "a", "c": "g", "g": "c", "A": "T", "T": "A", "C": "G", "G": "C", "n": "n", "N": "N"}
     return "".join(comp.get(c, c) for c in reversed(seq))
+
+
+def collections(text, version=None):
+    """{(segment, collection): sorted list of canonical record keys} as the specification assigns them (C11)"""
+    v, recs = parse_text(text, version)
+    out = {}
+    def put(seg, coll, r):
+        rr = r.copy()
+        if rr.rt == "L" and v == "gfa1":
+            rr.pos = link_canon(rr.pos)
+        out.setdefault((seg, coll), []).append(str(rr.key()))
+    for r in recs:
+        if v == "gfa1" and r.rt == "L":
+            put(r.pos[0], "dovetails_" + ("R" if r.pos[1] == "+" else "L"), r)
+            put(r.pos[2], "dovetails_" + ("L" if r.pos[3] == "+" else "R"), r)
+        elif v == "gfa1" and r.rt == "C":
+            put(r.pos[0], "edges_to_contained", r)
+            put(r.pos[2], "edges_to_containers", r)
+        elif v == "gfa2" and r.rt == "E":
+            c, x1, x2 = e_class(r.pos)
+            s1, s2 = r.pos[1][:-1], r.pos[2][:-1]
+            if c == "dovetail":
+                put(s1, "dovetails_" + x1, r); put(s2, "dovetails_" + x2, r)
+            elif c == "internal":
+                put(s1, "internals", r); put(s2, "internals", r)
+            else:
+                if x1 == "whole" and x2 == "whole":
+                    put(s1, "containment_either", r); put(s2, "containment_either", r)
+                elif x1 == "whole":
+                    put(s1, "edges_to_containers", r); put(s2, "edges_to_contained", r)
+                else:
+                    put(s1, "edges_to_contained", r); put(s2, "edges_to_containers", r)
+        elif v == "gfa2" and r.rt == "G":
+            put(r.pos[1][:-1], "gaps_" + ("R" if r.pos[1][-1] == "+" else "L"), r)
+            put(r.pos[2][:-1], "gaps_" + ("L" if r.pos[2][-1] == "+" else "R"), r)
+    return {k: sorted(x) for k, x in out.items()}
